@@ -45,6 +45,8 @@ func init() {
 				Edits: []Edit{{File: "channel/read.go", Old: "partitionIdx := bytes.Index(prb, []byte(\"\\n\"))", New: "partitionIdx := bytes.Index(rb, []byte(\"\\n\"))"}}},
 			{ID: "C01-window-not-snapped", Desc: "search window no longer moved to a line boundary", Rule: "C01/search-depth",
 				Edits: []Edit{{File: "channel/read.go", Old: "\tif partitionIdx > 0 {\n\t\tprb = prb[partitionIdx:]\n\t}\n", New: "\t_ = partitionIdx\n"}}},
+			{ID: "C01-fuzzy-not-threaded", Desc: "fuzzy matcher searches the whole output for every input byte", Rule: "C01/fuzzy-consume",
+				Edits: []Edit{{File: "util/bytes.go", Old: "\t\tshouldContinue, output = bytesRoughlyContainsIterOutputForInputChar(inputChar, output)", New: "\t\tshouldContinue, _ = bytesRoughlyContainsIterOutputForInputChar(inputChar, output)"}}},
 			{ID: "C01-last-first", Desc: "SendCommands sends the last command first", Rule: "C01/one-response-per-command",
 				Edits: []Edit{{File: "driver/generic/sendcommands.go", Old: "\tfor _, input := range commands[:len(commands)-1] {", New: "\tfor _, input := range commands[1:] {"}}},
 			{ID: "C01-sendcommand-twice", Desc: "sendCommand sends the command twice when it failed", Rule: "C01/tx-seq",
@@ -71,6 +73,7 @@ func runC01(c *Ctx, r *Report) {
 	checkSearchDepth(c, r)
 	checkCommandOrder(c, r)
 	checkFuzzyConsume(c, r)
+	checkFuzzyThreaded(c, r)
 }
 
 func checkSendInputWorker(c *Ctx, r *Report) {
